@@ -85,7 +85,12 @@ def build_disk_cache_class(chosen_non_int_type: type):
 
     @dataclass(frozen=True)
     class PathHeader(fc.NameByFileContent, PintHeader):
-        pass
+        def _for_cache_name(self):
+            yield from super()._for_cache_name()
+            # The parsed file remembers its location, relative to which its
+            # @import statements are resolved: the same text in another
+            # directory is another source.
+            yield bytes(self.source_path.resolve())
 
     @dataclass(frozen=True)
     class ParsedProjecHeader(fc.NameByHashIter, PintHeader):
